@@ -11,7 +11,9 @@ use crate::oracle::resources::ResModel;
 use crate::oracle::scan::Scan;
 use crate::report::{guarded, Ctx};
 use crate::rng::{fnv, Rng};
-use adblock::lists::ParseOptions;
+use adblock::blocker::{Blocker, BlockerOptions};
+use adblock::lists::{parse_filters, ParseOptions};
+use adblock::resources::ResourceStorage;
 use adblock::request::Request;
 use serde_json::json;
 use std::collections::HashSet;
@@ -121,6 +123,7 @@ pub fn run(ctx: &mut Ctx) {
             let mut scan = Scan::new(&rules, opts);
             let tags = HashSet::new();
             let mut out = vec![];
+            let mut asked: Vec<(String, String, &str, Option<String>, usize)> = vec![];
             for _ in 0..3 {
                 let url = gen_url(&mut r, host, ptok);
                 let source = if r.chance(1, 2) { format!("https://{}/", host) } else { format!("https://{}/", r.ps(gen::HOSTS)) };
@@ -152,7 +155,25 @@ pub fn run(ctx: &mut Ctx) {
                 let h = fnv(&format!("{:?}|{}|{}|{}", rules, url, source, ty));
                 let detail = json!({"rules": rules, "url": url, "source": source, "type": ty, "engine": a.to_json(), "oracle": verdict_json(&v),
                     "matching_removeparam_rules": v.removeparam_hits});
+                asked.push((url.clone(), source.clone(), ty, a.rewritten.clone(), out.len()));
                 out.push((sigs, nt, h, detail, a.rewritten.is_some()));
+            }
+            // Blocker level: the same rules on a live Blocker, before and after an explicit optimize()
+            let (nf, _) = parse_filters(&rules, true, opts);
+            let mut blocker = Blocker::new(nf, &BlockerOptions { enable_optimizations: false });
+            let storage = ResourceStorage::from_resources(resdefs.iter().map(|d| d.to_resource()));
+            for phase in ["before-optimize", "after-optimize"] {
+                for (url, source, ty, want, slot) in &asked {
+                    let rq = Request::new(url, source, ty).unwrap();
+                    let got = blocker.check(&rq, &storage).rewritten_url;
+                    if &got != want {
+                        out[*slot].0.push(format!("C14:live-blocker-rewrite-differs-from-engine:{}", phase));
+                        if let Some(o) = out[*slot].3.as_object_mut() {
+                            o.insert(format!("blocker_rewrite_{}", phase), json!(got));
+                        }
+                    }
+                }
+                blocker.optimize();
             }
             out
         });
